@@ -211,6 +211,38 @@ class Compute(COp):
 
 
 @cregister
+class ComputeSim(COp):
+    """compute()/persist() of a Dask-backed heap signal under the simulated cluster
+    (Engine A): tape-drawn worker count, transport and completion order, optionally an
+    injected abort or failing task. No caller-owned object may change, whatever happens."""
+    name = "compute_sim"
+    no_line_enum = True
+
+    def applies(self, info):
+        return True
+
+    def gen(self, tape, info):
+        return {"persist": tape.chance(1, 3, "csim.persist"), "faults": tape.chance(1, 2, "csim.faults")}
+
+    def call(self, pb, z, args, desc):
+        import dask.array as da
+        from .dasksim import SchedPlan, SimScheduler, SimAbort
+        ctx = args["ctx"]
+        if not isinstance(z.data, da.Array):
+            z = z.to_dask_array()
+        plan = SchedPlan(ctx.tape, "csim", allow_faults=desc["faults"])
+        sim = SimScheduler(ctx, plan, "csim")
+        ctx.probe("dask_heap_object_computed_under_engine_A")
+        try:
+            if desc["persist"]:
+                return z.persist(scheduler=sim)
+            return z.compute(scheduler=sim)
+        except (SimAbort, inject.SimOSError) as e:
+            ctx.probe("heap_compute_hit_by_injected_fault")
+            return None
+
+
+@cregister
 class Ctor(COp):
     """Construct a new signal from an existing one's buffer and metadata objects."""
     name = "ctor"
@@ -311,7 +343,7 @@ def all_ops():
     return d
 
 
-C_WEIGHTS = {"observe": 2, "contains": 2, "inplace": 4, "istft": 3, "stft": 2,
+C_WEIGHTS = {"compute_sim": 2, "observe": 2, "contains": 2, "inplace": 4, "istft": 3, "stft": 2,
              "time_shift": 3, "freq_shift": 3, "snippet": 2, "coherent_dd": 3,
              "incoherent_dd": 2, "concat": 3, "polconv": 3, "binary": 3, "ctor": 2}
 
@@ -361,6 +393,13 @@ class Heap:
                 if aliased and h.group == sanctioned_target.group:
                     self.ctx.probe("sanctioned_write_through_alias"
                                    if h is not sanctioned_target else "sanctioned_write")
+                    self.base[h.name] = (meta1, data1)
+                    continue
+                if aliased and not isinstance(getattr(h.obj, "_data", h.obj), np.ndarray):
+                    # C14 quantifies over NumPy-backed inputs. Dask itself hands out the same
+                    # Array object from no-op slices and one-piece concatenations, and an
+                    # in-place operator rebinds that object's graph: observed, not alarmed.
+                    self.ctx.probe("dask_array_object_shared_across_alias_groups_(not_alarmed)")
                     self.base[h.name] = (meta1, data1)
                     continue
                 if aliased:
@@ -549,6 +588,9 @@ def _run(ctx):
             ctx.log("prepare-failed", type(e).__name__)
             heap.check(opname, "after prepare")
             continue
+        if opname == "compute_sim":
+            args = dict(args)
+            enum_kind = 0
         arg_h = []
         for k, v in args.items():
             if isinstance(v, (int, float, complex, str, bool, type(None))):
@@ -562,6 +604,8 @@ def _run(ctx):
             ctx.probe("input_is_view_of_heap_object")
 
         sanc = target if getattr(op, "sanctioned", False) else None
+        if opname == "compute_sim":
+            args["ctx"] = ctx
 
         def thunk():
             core.clear_library_caches(pb)     # the lru_cache memo must not shorten re-executions
@@ -606,6 +650,24 @@ def _run(ctx):
             ctx.log("enum", kname, L, swallowed)
             if outcome == "ok":
                 ctx.probe("crash_after_possible_write")
+            # thorough tier: for some steps also every INSTRUCTION of pulsarbat code (capped,
+            # evenly strided): separates nested calls and statements sharing one line
+            if ctx.tier == "thorough" and tape.chance(1, 5, f"s{s}.opcodes"):
+                o3, v3 = inj.run_opcodes(thunk)
+                LI = inj.count
+                stride = max(1, LI // 300)
+                nin = 0
+                for k in range(0, LI, stride):
+                    inj.run_opcodes(thunk, target=k, exc=exc)
+                    nin += 1
+                    ctx.counts["injected_executions"] += 1
+                    if inj.fired:
+                        ctx.fault(kname + "_at_instruction")
+                    heap.check(opname, f"after {kname} at instruction-level crash point {k}/{LI} {inj.site}", sanc)
+                ctx.counts["opcode_enumerated_steps"] += 1
+                ctx.counts["instruction_crash_points"] += nin
+                ctx.log("enum-opcodes", kname, LI, nin)
+                ctx.probe("instruction_level_enumeration")
 
         # ---- result joins the heap ----
         if outcome == "ok" and isinstance(val, pb.Signal) and val is not z:
